@@ -1018,6 +1018,15 @@ func (ns *NamespaceStore) SealNamespace(ctx context.Context, path string) error 
 		return fmt.Errorf("failed to persist namespace: %w", err)
 	}
 
+	// Reflect the status in memory as well: namespaceToSeal is a copy of our
+	// entry, and key sharing (SetNamespaceKeys) consults the in-memory entry
+	// to leave manually sealed namespaces alone.
+	if err := ns.namespacesByPath.Insert(nsCopy); err != nil {
+		return fmt.Errorf("failed to update namespace: %w", err)
+	}
+	ns.namespacesByUUID[nsCopy.UUID] = nsCopy
+	ns.namespacesByAccessor[nsCopy.ID] = nsCopy
+
 	return ns.sealNamespaceLocked(ctx, namespaceToSeal)
 }
 
